@@ -5,6 +5,7 @@ CONSTANTS
   PeerKinds = {"data", "ping", "pong", "closeValid", "closeEmpty", "closeInvalid", "viol", "eof", "err"}
   CallApis = {"NextFrame", "NextMessage", "AsyncNextFrame", "AsyncNextMessage", "Write", "WriteFrame", "AsyncWrite", "AsyncWriteFrame", "Flush", "AsyncFlush", "Close", "AsyncClose"}
   BUG_SecondClose = FALSE
+  Focus = {"C08", "C17"}
 INVARIANTS TypeOK Agree
 VIEW View
 ACTION_CONSTRAINT EmitEdge
